@@ -96,7 +96,10 @@ fn main() {
             let cases = arg(&args, "--cases").expect("--cases");
             let out = arg(&args, "--out").expect("--out");
             let jobs: usize = arg(&args, "--jobs").and_then(|s| s.parse().ok()).unwrap_or(1);
-            supervise::run(name, eng.rlimit_as_mb(), eng.timeout_ms(), &cases, &out, jobs);
+            // AXH_TIMEOUT_SCALE: the re-run of a timed-out case, alone, gets a multiple of the engine's time limit (a loaded
+            // machine slows a case down by a factor; a hang of the code stays a hang under any factor)
+            let scale: u64 = std::env::var("AXH_TIMEOUT_SCALE").ok().and_then(|s| s.parse().ok()).unwrap_or(1).clamp(1, 16);
+            supervise::run(name, eng.rlimit_as_mb(), eng.timeout_ms() * scale, &cases, &out, jobs);
         }
         "extract" => {
             // writes one file per engine into the given directory, touching only files whose content changed
